@@ -74,6 +74,15 @@ pub struct NetCfg {
     pub big_delay: u64,
     pub flip_ppm: u64,
     pub foreign_src_ppm: u64,
+    /// every datagram of the server side leaves from this port instead of the port the server listens on
+    /// (a server that answers from another socket: legal for UDP, the client must keep sending to the
+    /// port it was given); 0 = off
+    pub reply_from_port: u16,
+    /// (n, extra): the n-th datagram (from 0) the server side puts on the network is delivered a second
+    /// time, `extra` ns after its first arrival - a late duplicate that lands in a later step of the exchange
+    pub late_dup: Option<(u64, u64)>,
+    /// datagrams the server side has put on the network so far (counter for `late_dup`)
+    pub udp_replies_seen: u64,
     /// segment server->client TCP data into several arrivals
     pub tcp_segment_ppm: u64,
     /// the server side falls silent after this many datagrams reached the network
@@ -453,6 +462,19 @@ impl World {
             self.hist.push(Hist::Net { t: self.now, what: "flip", to_client: true, len });
         }
         let mut src = from;
+        if self.net.reply_from_port != 0 {
+            src = SocketAddr::new(from.ip(), self.net.reply_from_port);
+            self.stats.fault("reply_from_another_port");
+        }
+        let nth = self.net.udp_replies_seen;
+        self.net.udp_replies_seen += 1;
+        if let Some((n, extra)) = self.net.late_dup {
+            if n == nth {
+                self.stats.fault("late_dup_reply");
+                self.hist.push(Hist::Net { t: self.now, what: "late-dup", to_client: true, len });
+                self.push(at.saturating_add(extra), Ev::ToClientUdp { sock: sock as u64, from: src, data: data.clone() });
+            }
+        }
         if self.tape.chance(tape::NET, self.net.foreign_src_ppm) {
             src = SocketAddr::new(IpAddr::V4(Ipv4Addr::new(203, 0, 113, 7)), from.port());
             self.stats.fault("foreign_source");
